@@ -44,6 +44,18 @@ def cases(tier, rng, schema, feats):
     for variant in UNIT_RESPONSES:
         out.append(f"C02.{n}\tenc2\t{variant}\t64\t{rng.bytes(9).hex()}\t-")
         n += 1
+    # the advertised algorithm list carries whatever identifiers the authenticator put there: every COSE identifier in -70..7,
+    # the neighbours of -257 / -65535 and the i32 range ends, alone and next to a second entry
+    gi_t = RESPONSES.get("GetInfo")
+    if gi_t:
+        scan = list(range(-70, 8)) + [-259, -258, -257, -256, -65536, -65535, 255, 256, 65535, 65536, 2**31 - 1, -(2**31)]
+        for a in scan:
+            for second in (None, -7):
+                base = g.named_val(gi_t, present=frozenset(["algorithms"]))
+                algs = [("R", [("alg", ("i", a))])] + ([("R", [("alg", ("i", second))])] if second is not None else [])
+                fs = [(l, ("S", ("L", algs)) if l == "algorithms" else v) for l, v in base[1]]
+                out.append(f"C02.{n}\tenc2\tGetInfo\t7609\t-\t{gen.show(('R', fs))}")
+                n += 1
     return out
 
 
